@@ -10,13 +10,13 @@
 namespace ref89 {
 
 // "joining them with sep reproduces the original": an explicit join by hand over (pointer, length) views of the pieces
-// exactly as the library returned them - byte by byte, nothing borrowed from the split model.
+// exactly as the library returned them, nothing borrowed from the split model.
 struct Piece { const char *p; size_t n; };
 inline std::string join_by_hand(const std::vector<Piece> &pieces, const char *sep, size_t sep_len) {
     std::string o;
     for (size_t i = 0; i < pieces.size(); i++) {
-        if (i) for (size_t k = 0; k < sep_len; k++) o.push_back(sep[k]);
-        for (size_t k = 0; k < pieces[i].n; k++) o.push_back(pieces[i].p[k]);
+        if (i) o.append(sep, sep_len);
+        o.append(pieces[i].p, pieces[i].n);
     }
     return o;
 }
@@ -45,6 +45,35 @@ inline ref::Sides around_last(const std::string &s, const std::string &sep, bool
         for (size_t i = s.size() - sep.size() + 1; i-- > 0;)
             if (ref::occurs_at(s, i, sep, ci)) return ref::Sides{true, s.substr(0, i), s.substr(i, sep.size()), s.substr(i + sep.size())};
     return ref::Sides{false, std::string(), std::string(), s};
+}
+
+// trims for long subjects / long character sets: membership decided by a 256-entry table built from the set (ref::trim_*
+// walks the set for every byte; same meaning)
+struct ByteSet { bool in[256]; explicit ByteSet(const std::string &set) { for (bool &b : in) b = false; for (char c : set) in[(unsigned char)c] = true; } };
+inline std::string trim_left(const std::string &s, const std::string &set) {
+    const ByteSet t(set); size_t b = 0;
+    while (b < s.size() && t.in[(unsigned char)s[b]]) b++;
+    return std::string(s.data() + b, s.size() - b);
+}
+inline std::string trim_right(const std::string &s, const std::string &set) {
+    const ByteSet t(set); size_t e = s.size();
+    while (e > 0 && t.in[(unsigned char)s[e - 1]]) e--;
+    return std::string(s.data(), e);
+}
+inline std::string trim(const std::string &s, const std::string &set) { return trim_right(trim_left(s, set), set); }
+// tokenize with the same table
+inline std::vector<std::string> tokenize(const std::string &s, const std::string &delims) {
+    const ByteSet t(delims);
+    std::vector<std::string> out;
+    size_t i = 0;
+    while (i < s.size()) {
+        if (t.in[(unsigned char)s[i]]) { i++; continue; }
+        size_t j = i;
+        while (j < s.size() && !t.in[(unsigned char)s[j]]) j++;
+        out.push_back(s.substr(i, j - i));
+        i = j;
+    }
+    return out;
 }
 
 // number of non-overlapping left-to-right occurrences (the k of the replace length formula, the number of cuts of an unlimited split)
